@@ -25,6 +25,8 @@ import DiskfsModel.Proofs.IsoLayout
 import DiskfsModel.Proofs.IsoCodec
 import DiskfsModel.Proofs.IsoExtent
 import DiskfsModel.Proofs.IsoImage
+import DiskfsModel.Proofs.IsoWrites
+import DiskfsModel.Proofs.IsoSusp
 import DiskfsModel.Generated.Iso
 namespace Diskfs.Iso.C06
 
@@ -195,6 +197,89 @@ theorem reader_finds_layout (i : ImageIn) (fuel : Nat) (hbs : 2048 ≤ i.bs) (hw
     (placed_writes_disjoint i hbs hp hpl) hfit
 
 
+/-- **the Go write sequence refines the coarse one**: `copyFileData` issues one WriteAt per 2048-byte
+    chunk of a file (every chunk, also one that holds only zeros) and Finalize then zero-fills the
+    last block; on EVERY device contents `d` that sequence (`ImageIn.writesGo`) leaves exactly what
+    the one-write-per-file list of `reader_finds_layout` leaves -/
+theorem go_writes_refine (i : ImageIn) (d : Dev) : applyWrs d i.writesGo = applyWrs d i.writes :=
+  writesGo_apply i d
+
+/-- **reader_finds_layout on a device that held anything before** (recycled image file, used
+    partition, erased flash): with the WriteAt calls as the Go code issues them (`writesGo`) onto
+    ANY prior contents `d0`, the reader started at sector 16 returns the descriptor written and the
+    whole tree with every file's bytes — nothing the reader sees depends on `d0`.  Hypotheses as in
+    `reader_finds_layout`. -/
+theorem reader_finds_layout_any_device (i : ImageIn) (d0 : Dev) (fuel : Nat) (hbs : 2048 ≤ i.bs) (hwf : i.t.WF)
+    (hp : i.pvd.WF) (hpbs : i.pvd.blocksize = i.bs) (hroot : i.pvd.root = i.t.selfRec 0) (h0 : 0 < i.t.n)
+    (hrd : (i.t.ent 0).isDir = true)
+    (hdirs : ∀ d, d < i.t.n → (i.t.ent d).isDir = true → d ∈ i.dirs)
+    (hfiles : ∀ c, c < i.t.n → (i.t.ent c).isDir = false → c ∈ i.files)
+    (hsz : ∀ d ∈ i.dirs, (i.t.ent d).size = (i.t.dirBytes i.bs d).length)
+    (hfsz : ∀ f ∈ i.files, (i.t.ent f).size = (i.t.ent f).content.length)
+    (hpl : i.Placed) (hfit : i.t.Fits fuel 0) :
+    readImageP (i.imageOn d0) (16 * i.bs) fuel = some (i.pvd, i.t.walk fuel [] 0) :=
+  reader_on_image_on i d0 fuel (by omega) hwf hp hpbs hroot h0 hrd hdirs hfiles hsz hfsz
+    (placed_writes_disjoint i hbs hp hpl) hfit
+
+/-- every WriteAt of that sequence ends inside the declared volume (`volBlocks` = `totalSize`), so the
+    device keeps its old bytes from there on (C03 states the same for its range clause) -/
+theorem go_writes_inside_volume (i : ImageIn) (d0 : Dev) (hbs : 2048 ≤ i.bs) (hp : i.pvd.WF) (hpl : i.Placed) :
+    (∀ w ∈ i.writesGo, w.off + w.data.length ≤ i.volBlocks * i.bs) ∧
+    ∀ j, i.volBlocks * i.bs ≤ j → i.imageOn d0 j = d0 j :=
+  ⟨writesGo_in_volume i hbs hp hpl, imageOn_frame i d0 hbs hp hpl⟩
+
+/-! ## reading side: system use areas and Joliet names (Model/Iso/Susp.lean) -/
+
+/-- **Rock Ridge names of any length survive**: `rockRidgeName.Bytes` cuts a name into NM entries of
+    at most 249 name bytes (all but the last flagged "continued"); for EVERY non-empty name, the
+    loop of `parseDirectoryEntryExtensions` over those bytes (followed by padding or by fewer than 4
+    bytes) finds exactly these entries, each parses as an NM entry, and `GetFilename` (fix 6806b9b:
+    all entries up to the first that is not continued) returns the name -/
+theorem nm_roundtrip (name tail : Bytes) (hn : name ≠ []) (ht : tail.length ≤ 3 ∨ (tail.getD 2 0).toNat < 4) :
+    ∃ ps, suspSplit (nmBytes name ++ tail).length (nmBytes name ++ tail) = some (nmEntries name.length name) ∧
+      parseAll (nmEntries name.length name) = some ps ∧ getFilename ps = some name :=
+  nm_area_roundtrip name tail hn ht
+
+/-- the splitting loop inverts concatenation for any well-formed entries (length byte = length, 4..255) -/
+theorem susp_split_roundtrip (es : List Bytes) (tail : Bytes) (hes : ∀ e ∈ es, EntOK e)
+    (ht : tail.length ≤ 3 ∨ (tail.getD 2 0).toNat < 4) (fuel : Nat) (hf : es.length ≤ fuel) :
+    suspSplit fuel (es.flatten ++ tail) = some es := suspSplit_flatten es tail hes ht fuel hf
+
+/-- **continuation areas keep inside their room under the repaired rule** (`reserve = true`: an
+    extension stays in an area only if everything left fits or the 28-byte CE entry still fits
+    behind it): for any extensions, any room of at least 28 bytes and any continuation blocks, the
+    record's area is at most `maxSize` bytes and every continuation area at most one block -/
+theorem ce_areas_fit (bs : Nat) (hbs : ceSize ≤ bs) (fuel : Nat) (exts : List Bytes) (maxSize : Nat) (ce : List Nat)
+    (areas : List Bytes) (hmax : ceSize ≤ maxSize) (h : assemble true bs fuel exts maxSize ce = some areas) :
+    ∃ a rest, areas = a :: rest ∧ a.length ≤ maxSize ∧ ∀ x ∈ rest, x.length ≤ bs :=
+  assemble_reserve_fits bs hbs fuel exts maxSize ce areas hmax h
+
+private def ext20 : Bytes := [90, 90, 20, 1] ++ zeros 16
+/-- … and the code as found (`reserve = false`) does not: four extensions of 20 bytes and 60 bytes of
+    room give an area of 88 bytes — in a directory record this is how the length byte wraps
+    (recorded finding iso-rr-ce-record-overflow); the repaired rule leaves 48 bytes in the record and 60 in the area -/
+theorem ce_overflow_as_found :
+    (assemble false 2048 10 [ext20, ext20, ext20, ext20] 60 [50, 51]).map (·.map (·.length)) = some [88, 20] ∧
+    (assemble true 2048 10 [ext20, ext20, ext20, ext20] 60 [50, 51]).map (·.map (·.length)) = some [48, 60] := by decide
+
+/-- **Joliet names round-trip** for code points of the Basic Multilingual Plane that are no
+    surrogates: `bytesToUCS2String (ucs2StringToBytes s) = s` (beyond the BMP the encoder drops the
+    high bits: recorded finding iso-joliet-nonbmp-name, counterexample below) -/
+theorem ucs2_roundtrip (cps : List Nat) (h : ∀ c ∈ cps, c < 65536 ∧ ¬ (55296 ≤ c ∧ c ≤ 57343)) :
+    ucs2Dec (ucs2Enc cps) = cps := ucs2_dec_enc cps h
+
+/-! non-vacuity / witnesses -/
+example : ucs2Dec (ucs2Enc [97, 128512]) = [97, 62976] := by decide   -- a😀 comes back as a + U+F600
+example : ucs2Dec (ucs2Enc [228, 26085, 65]) = [228, 26085, 65] := by decide
+-- a name of 5 bytes: one NM entry; the reader finds it behind a PX-like entry and before padding
+example : (parseArea ([80, 88, 4, 1] ++ nmBytes [97, 98, 99, 100, 101] ++ [0])).bind getFilename = some [97, 98, 99, 100, 101] := by decide
+-- a symlink target in two SL entries is joined by ReadLink; a CE entry is followed by `collect`
+example : readLink [.sl true [97], .nm false false false [120], .sl false [98, 47, 99]] = some [97, 47, 98, 47, 99] := by decide
+example : readSusp (fun loc _ _ => if loc = 50 then nmBytes [120, 121] else []) (ceEntry 50 0 7) =
+    some [.nm false false false [120, 121]] := by decide
+-- path table lookup (fix 80ad899): /B/C is record 4 (parent = record 3), not the C below A
+example : ptLookup [⟨[0], 18, 1⟩, ⟨[65], 19, 1⟩, ⟨[66], 20, 1⟩, ⟨[67], 21, 2⟩, ⟨[67], 22, 3⟩] [[66], [67]] = 22 := by decide
+
 /-! non-vacuity of `reader_finds_layout`: a root directory holding one file, 2048-byte blocks -/
 
 private def imDate : Bytes := [126, 1, 1, 0, 0, 0, 0]
@@ -252,5 +337,35 @@ example : readImageP imI.image (16 * 2048) 2 = some (imI.pvd, imT.walk 2 [] 0) :
     simp [imI, imT] at hc; subst hc
     simp [imI, imT] at hd
 example : imT.walk 2 [] 0 = [{ path := [[65, 59, 49]], isDir := false, loc := 21, size := 3, data := [7, 7, 7] }] := by decide
+
+/-- the same instance on a device that held 0xFF everywhere -/
+example : readImageP (imI.imageOn (fun _ => 255)) (16 * 2048) 2 = some (imI.pvd, imT.walk 2 [] 0) := by
+  refine reader_finds_layout_any_device imI _ 2 (by decide) imWF ?_ rfl rfl (by decide) rfl ?_ ?_ ?_ ?_ imPlaced ?_
+  · simp [PVD.WF, imI, imT, PTree.selfRec, PTree.recOf, imDate]
+  · intro d hd hdir
+    have : d = 0 ∨ d = 1 := by simp [imI, imT] at hd; omega
+    rcases this with rfl | rfl
+    · simp [imI]
+    · simp [imI, imT] at hdir
+  · intro c hc hf
+    have : c = 0 ∨ c = 1 := by simp [imI, imT] at hc; omega
+    rcases this with rfl | rfl
+    · simp [imI, imT] at hf
+    · simp [imI]
+  · intro d hd
+    simp [imI] at hd; subst hd
+    exact imLen.symm ▸ rfl
+  · intro f hf
+    simp [imI] at hf; subst hf
+    rfl
+  · intro c hc hd
+    simp [imI, imT] at hc; subst hc
+    simp [imI, imT] at hd
+-- its Go write list starts at: system area, root directory, L and M path table, the file's chunk and fill, PVD, terminator
+example : imI.writesGo.map (·.off) = [0, 36864, 38912, 40960, 43008, 43011, 32768, 34816] := by decide
+-- `copyFileData` with a chunk of 4: a file of 10 bytes at byte 100 is written as 4 + 4 + 2 bytes; with 8-byte blocks the fill is 6 bytes
+example : (chunkWrs 4 10 100 [1, 2, 3, 4, 5, 6, 7, 8, 9, 10]).map (fun w => (w.off, w.data)) =
+    [(100, [1, 2, 3, 4]), (104, [5, 6, 7, 8]), (108, [9, 10])] := by decide
+example : (fileWrs 8 96 [1, 2, 3, 4, 5, 6, 7, 8, 9, 10]).map (fun w => (w.off, w.data.length)) = [(96, 10), (106, 6)] := by decide
 
 end Diskfs.Iso.C06
